@@ -121,43 +121,53 @@ def module_level(R, rng, ncells):
                 lo, hi = PR[key.split("_")[-1]]
                 rows = cell.nodes.index[~cell.nodes[key].isna()].to_numpy()
                 cell.select(nodes=rows).set(key, rng.uniform(lo, hi, len(rows)))
-        before = cell.nodes.copy()
-        cell.init_states()
-        after = cell.nodes
-        R.evaluations += 1
-        desc = dict(parents=parents, ncomps=ncomps, channels=[(nm, ch._name) for nm, ch in chans])
-        R.distinct.add(json_key(desc))
-        state_cols = set()
-        for nm, ch in chans:
-            state_cols |= set(ch.channel_states)
-        # frame: every other column unchanged
-        for col in before.columns:
-            if col in state_cols:
-                continue
-            a, b = before[col].to_numpy(), after[col].to_numpy()
-            same = all((x == y) or (isinstance(x, float) and isinstance(y, float) and math.isnan(x) and math.isnan(y)) for x, y in zip(a, b))
-            if not same:
-                R.spec_fail(dict(kind="init_states-frame", col=col), f"init_states changed column {col}", desc, [a.tolist(), b.tolist()])
-        for nm, ch in chans:
-            has = after[ch._name].to_numpy().astype(bool)
-            for k in ch.channel_states:
-                for r in range(n):
-                    x_b, x_a = float(before.loc[r, k]), float(after.loc[r, k])
-                    if not has[r]:
-                        # another channel may share the state name only for identically named channels: not the case here
-                        if not ((x_a == x_b) or (math.isnan(x_a) and math.isnan(x_b))):
-                            R.spec_fail(dict(kind="init_states-wrote-row-without-channel", mech=nm), f"{k} row {r} written although {ch._name} is absent", desc, x_a)
-                        continue
-                    P = {p: jnp.asarray([float(after.loc[r, p])]) for p in ch.channel_params}
-                    v = float(after.loc[r, "v"])
-                    S = {kk: jnp.asarray([float(after.loc[r, kk])]) for kk in ch.channel_states}
-                    if not math.isfinite(x_a):
-                        R.spec_fail(dict(kind="init-nonfinite", mech=nm), f"init_states: {k} row {r} = {x_a}", dict(v=v, **desc), x_a); continue
-                    u = ch.update_states(S, 0.3, jnp.asarray([v]), P)
-                    x1 = float(u[k][0])
-                    if not close(x1, x_a, rel=1e-10, abs_=1e-13, maxulp=64):
-                        R.spec_fail(dict(kind="init-not-fixed-point", mech=nm, key=k.split("_")[-1]),
-                                    f"init_states: {k} row {r} = {x_a!r} is not a fixed point at its own v={v!r} (moves to {x1!r})", dict(v=v, row=r, **desc), x1, init=x_a)
+        for phase in ("first-call", "after-parameter-change"):
+            if phase == "after-parameter-change":
+                # the module has been used (its jax tables exist); parameters and voltages change; init_states is called AGAIN
+                cell.to_jax()
+                cell.set("v", rng.uniform(-120, 60, n))
+                for key in ("vt", "Km_taumax", "CaT_vx"):
+                    if key in cell.nodes.columns:
+                        lo, hi = PR[key.split("_")[-1]]
+                        rows = cell.nodes.index[~cell.nodes[key].isna()].to_numpy()
+                        cell.select(nodes=rows).set(key, rng.uniform(lo, hi, len(rows)))
+            before = cell.nodes.copy()
+            cell.init_states()
+            after = cell.nodes
+            R.evaluations += 1
+            desc = dict(parents=parents, ncomps=ncomps, channels=[(nm, ch._name) for nm, ch in chans], phase=phase)
+            R.distinct.add(json_key(desc))
+            state_cols = set()
+            for nm, ch in chans:
+                state_cols |= set(ch.channel_states)
+            # frame: every other column unchanged
+            for col in before.columns:
+                if col in state_cols:
+                    continue
+                a, b = before[col].to_numpy(), after[col].to_numpy()
+                same = all((x == y) or (isinstance(x, float) and isinstance(y, float) and math.isnan(x) and math.isnan(y)) for x, y in zip(a, b))
+                if not same:
+                    R.spec_fail(dict(kind="init_states-frame", col=col), f"init_states changed column {col}", desc, [a.tolist(), b.tolist()])
+            for nm, ch in chans:
+                has = after[ch._name].to_numpy().astype(bool)
+                for k in ch.channel_states:
+                    for r in range(n):
+                        x_b, x_a = float(before.loc[r, k]), float(after.loc[r, k])
+                        if not has[r]:
+                            # another channel may share the state name only for identically named channels: not the case here
+                            if not ((x_a == x_b) or (math.isnan(x_a) and math.isnan(x_b))):
+                                R.spec_fail(dict(kind="init_states-wrote-row-without-channel", mech=nm), f"{k} row {r} written although {ch._name} is absent", desc, x_a)
+                            continue
+                        P = {p: jnp.asarray([float(after.loc[r, p])]) for p in ch.channel_params}
+                        v = float(after.loc[r, "v"])
+                        S = {kk: jnp.asarray([float(after.loc[r, kk])]) for kk in ch.channel_states}
+                        if not math.isfinite(x_a):
+                            R.spec_fail(dict(kind="init-nonfinite", mech=nm), f"init_states: {k} row {r} = {x_a}", dict(v=v, **desc), x_a); continue
+                        u = ch.update_states(S, 0.3, jnp.asarray([v]), P)
+                        x1 = float(u[k][0])
+                        if not close(x1, x_a, rel=1e-10, abs_=1e-13, maxulp=64):
+                            R.spec_fail(dict(kind="init-not-fixed-point", mech=nm, key=k.split("_")[-1]),
+                                        f"init_states: {k} row {r} = {x_a!r} is not a fixed point at its own v={v!r} (moves to {x1!r})", dict(v=v, row=r, **desc), x1, init=x_a)
         R.count(f"cells:{len(chans)}-channels")
 
 
